@@ -18,7 +18,7 @@ REQUIRED_COUNTERS = ['executed']      # the real calls were made (whether the so
 
 # observed contracts (not proof targets): cross-checked under the properties that depend on the reordering primitives
 EXTRA = {'C07': ['dd.bdd.BDD.swap!observed', 'dd.bdd.reorder!observed'], 'C02': ['dd.bdd.BDD.swap!observed', 'dd.bdd.BDD.undeclare_vars!observed'],
-         'C14': ['dd.bdd.BDD.undeclare_vars!observed'], 'C18': ['dd.bdd.BDD.undeclare_vars!observed'],
+         'C14': ['dd.bdd.BDD.undeclare_vars!observed'], 'C10': ['dd.bdd.BDD.pick_iter!observed', 'dd.bdd.BDD.pick!observed'], 'C01': ['dd.bdd.BDD.cube!observed'], 'C18': ['dd.bdd.BDD.undeclare_vars!observed'],
          'C06': ['dd.bdd.BDD.swap!observed'], 'C09': ['dd.bdd.reorder!observed'], 'C17': ['dd.bdd.BDD.swap!observed']}
 
 
